@@ -20,15 +20,29 @@ Print Assumptions C18_val_property_same.
 
 (* list paths: append / index assignment store, index read / iteration load: same value as the scalar path *)
 Theorem C18_list_paths : forall w sg v, 1 <= w ->
-  lt_getitem w sg (lt_mask w) (lt_append w (lt_mask w) v) = interp sg w (wrapU w v) /\
-  lt_iter_next w sg (lt_mask w) (lt_append w (lt_mask w) v) = interp sg w (wrapU w v) /\
-  lt_getitem w sg (lt_mask w) (lt_setitem w v) = interp sg w (wrapU w v).
+  lt_getitem w sg (lt_mask w) (lt_append w sg (lt_mask w) v) = interp sg w (wrapU w v) /\
+  lt_iter_next w sg (lt_mask w) (lt_append w sg (lt_mask w) v) = interp sg w (wrapU w v) /\
+  lt_getitem w sg (lt_mask w) (lt_setitem w sg (lt_mask w) v) = interp sg w (wrapU w v).
 Proof. exact list_store_load. Qed.
 Print Assumptions C18_list_paths.
 Theorem C18_paths_agree : forall w sg v, 1 <= w ->
-  tb_get_val (tb_set_val w sg v) = lt_getitem w sg (lt_mask w) (lt_append w (lt_mask w) v).
+  tb_get_val (tb_set_val w sg v) = lt_getitem w sg (lt_mask w) (lt_append w sg (lt_mask w) v).
 Proof. exact paths_agree. Qed.
 Print Assumptions C18_paths_agree.
+(* the value STORED by a list write is itself the declared-type reading, inside the type
+   (membership tests, sums and printing read the stored value directly) *)
+Theorem C18_list_stored : forall w sg v, 1 <= w ->
+  lt_append w sg (lt_mask w) v = interp sg w (wrapU w v) /\
+  lt_setitem w sg (lt_mask w) v = interp sg w (wrapU w v) /\
+  in_type sg w (lt_append w sg (lt_mask w) v) = true /\
+  in_type sg w (lt_setitem w sg (lt_mask w) v) = true.
+Proof. exact list_stored. Qed.
+Print Assumptions C18_list_stored.
+(* reading back an element stored in its declared-type reading (possibly negative) returns it unchanged *)
+Theorem C18_list_read_stored : forall w sg x, 1 <= w -> in_type sg w x = true ->
+  lt_getitem w sg (lt_mask w) x = x /\ lt_iter_next w sg (lt_mask w) x = x.
+Proof. exact list_read_stored. Qed.
+Print Assumptions C18_list_read_stored.
 
 (* a value already inside the type is stored unchanged *)
 Theorem C18_in_range_unchanged : forall sg w x, 1 <= w -> in_type sg w x = true -> interp sg w (wrapU w x) = x.
